@@ -146,4 +146,65 @@ theorem encode_eq_nil (bs : Bytes) : encode bs = [] ↔ bs = [] := by
   | nil => simp [encode]
   | cons b r => by_cases h : inSet b = true <;> simp [encode, h]
 
+/-! ### what any conformant peer may write
+
+Other gRPC implementations escape a different set of bytes and may use lower-case hex digits.
+`encodeWith esc lower` is the family of all such encoders: it escapes exactly the bytes `esc`
+selects.  Decoding recovers the message as long as `%` itself is escaped. -/
+
+def hexLow (n : Nat) : UInt8 := if n < 10 then UInt8.ofNat (48 + n) else UInt8.ofNat (87 + n)
+
+def hexDigit (lower : Bool) (n : Nat) : UInt8 := if lower then hexLow n else hexUp n
+
+def encodeWith (esc : UInt8 → Bool) (lower : Bool) : Bytes → Bytes
+  | [] => []
+  | b :: rest =>
+    if esc b then PCT :: hexDigit lower (b.toNat / 16) :: hexDigit lower (b.toNat % 16) :: encodeWith esc lower rest
+    else b :: encodeWith esc lower rest
+
+theorem hexVal_hexLow : ∀ n : Fin 16, hexVal (hexLow n.val) = some n.val := by decide
+
+theorem hexVal_hexDigit (lower : Bool) (n : Nat) (h : n < 16) : hexVal (hexDigit lower n) = some n := by
+  cases lower
+  · exact hexVal_hexUp' n h
+  · exact hexVal_hexLow ⟨n, h⟩
+
+theorem afterPct_encWith (lower : Bool) (b : UInt8) (rest : Bytes) :
+    afterPct (hexDigit lower (b.toNat / 16) :: hexDigit lower (b.toNat % 16) :: rest) = some (b, rest) := by
+  have hb := b.toNat_lt
+  simp only [afterPct, hexVal_hexDigit lower _ (show b.toNat / 16 < 16 by omega),
+    hexVal_hexDigit lower _ (show b.toNat % 16 < 16 by omega)]
+  have e : b.toNat / 16 * 16 + b.toNat % 16 = b.toNat := by omega
+  rw [e]; simp
+
+/-- Whatever set of bytes a peer escapes and whichever hex case it uses, as long as it escapes
+`%`, decoding gives back the original bytes. -/
+theorem decode_encodeWith (esc : UInt8 → Bool) (lower : Bool) (hpct : esc PCT = true) (bs : Bytes) :
+    decode (encodeWith esc lower bs) = bs := by
+  induction bs with
+  | nil => simp [encodeWith, decode]
+  | cons b rest ih =>
+    by_cases hb : esc b = true
+    · simp only [encodeWith, hb, if_true]
+      rw [decode]
+      simp only [if_true]
+      split
+      · rename_i v rest' heq
+        rw [afterPct_encWith] at heq
+        cases heq
+        rw [ih]
+      · rename_i heq
+        rw [afterPct_encWith] at heq
+        cases heq
+    · have hb' : esc b = false := by simpa using hb
+      have hne : b ≠ PCT := by intro e; rw [e, hpct] at hb'; cases hb'
+      simp only [encodeWith, hb', Bool.false_eq_true, if_false]
+      rw [decode]
+      simp [hne, ih]
+
+theorem encode_eq_encodeWith (bs : Bytes) : encode bs = encodeWith inSet false bs := by
+  induction bs with
+  | nil => rfl
+  | cons b rest ih => by_cases h : inSet b = true <;> simp [encode, encodeWith, hexDigit, h, ih]
+
 end Pct
